@@ -27,8 +27,9 @@ func (e Env) clone() Env {
 
 // Evaluator evaluates queries on one graph.
 type Evaluator struct {
-	G      *gm.Graph
-	Params map[string]any
+	matchSeen bool // a MATCH clause has been evaluated (the deviation LeadingOptionalMatchYieldsNoRow looks at it)
+	G         *gm.Graph
+	Params    map[string]any
 	// Dev switches on documented semantic deviations of DAWGS from openCypher. The C01 checker attributes a
 	// disagreement to a known finding iff the SQL result equals the reference result with exactly that deviation on.
 	Dev Deviations
@@ -90,7 +91,8 @@ type Deviations struct {
 	WithDropsOrderSkipLimit bool
 	// ListConcatenationReadsNullAsEmpty: null + list (and list + null) yield the list instead of null.
 	ListConcatenationReadsNullAsEmpty bool
-	// LeadingOptionalMatchYieldsNoRow: a query that starts with OPTIONAL MATCH and matches nothing yields no row
+	// LeadingOptionalMatchYieldsNoRow: an OPTIONAL MATCH that no MATCH precedes (the query starts with it, or with UNWIND /
+	// WITH of values) and that matches nothing yields no row
 	// instead of one row of nulls.
 	LeadingOptionalMatchYieldsNoRow bool
 	// OptionalMatchNullBindingLosesMatch: the left join of OPTIONAL MATCH compares every carried binding with =, so a
@@ -102,6 +104,10 @@ type Deviations struct {
 	// MultiStepOptionalMatchIsPlainMatch: an OPTIONAL MATCH with several relationship steps behaves like MATCH (the
 	// translation without lowerings filters the leading expansion on the existence of the last step).
 	MultiStepOptionalMatchIsPlainMatch bool
+	// ExpansionSeedCrossJoinsEarlierFrame: a MATCH that starts with a variable-length step from an unbound node is not
+	// correlated to the incoming rows: its seed is every node satisfying the predicates for some incoming row and its
+	// rows are cross-joined with all incoming rows.
+	ExpansionSeedCrossJoinsEarlierFrame bool
 	// RegexMatchIsUnanchored: =~ succeeds when the pattern matches anywhere in the string (PostgreSQL's ~) instead of
 	// the whole string.
 	RegexMatchIsUnanchored bool
